@@ -615,6 +615,9 @@ pub fn replay_case(case: &Value) -> i32 {
     if case["api"] == "legacy" {
         return legacy::replay_case(case);
     }
+    if case["api"] == "command-via-core" {
+        return viacore::replay_case(case);
+    }
     let kinds: Vec<TKind> = serde_json::from_value(case["timers"].clone()).unwrap();
     let hist: Vec<TStep> = serde_json::from_value(case["history"].clone()).unwrap();
     println!("replay: timers {:?}", kinds);
@@ -921,6 +924,319 @@ pub mod legacy {
 
     pub fn replay_case(case: &Value) -> i32 {
         let hist: Vec<LAct> = serde_json::from_value(case["history"].clone()).unwrap();
+        match replay(&hist, true) {
+            Ok(_) => {
+                println!("  no divergence");
+                0
+            }
+            Err(f) => {
+                println!("  DIVERGENCE {}: {}", f.key, f.what);
+                1
+            }
+        }
+    }
+}
+
+// ---------------------------------------------------------------------------------------------
+// command API through a real Core: handles live in the model, the app clears / drops them in update
+
+pub mod viacore {
+    use super::*;
+    use crux_core::render::Render;
+
+    #[derive(Clone, Debug, PartialEq, Eq, Serialize, Deserialize)]
+    pub enum CEvent {
+        Start(TKind),
+        Clear(usize),
+        DropHandle(usize),
+        Noop,
+        Outcome(usize, bool),
+    }
+
+    #[derive(Default)]
+    pub struct CModel {
+        pub handles: Vec<Option<TimerHandle>>,
+        pub outcomes: Vec<(usize, bool)>,
+    }
+
+    #[derive(crux_core::macros::Effect)]
+    pub struct CCaps {
+        pub time: crux_time::Time<CEvent>,
+        pub render: Render<CEvent>,
+    }
+
+    #[derive(Default)]
+    pub struct CApp;
+
+    impl crux_core::App for CApp {
+        type Event = CEvent;
+        type Model = CModel;
+        type ViewModel = Vec<(usize, bool)>;
+        type Capabilities = CCaps;
+        type Effect = Effect;
+
+        fn update(&self, event: CEvent, model: &mut CModel, _caps: &CCaps) -> Command<Effect, CEvent> {
+            match event {
+                CEvent::Start(k) => {
+                    let i = model.handles.len();
+                    let (cmd, h) = match k {
+                        TKind::After => {
+                            let (b, h) = Time::<Effect, CEvent>::notify_after(Duration::from_millis(300 + i as u64));
+                            (b.then_send(move |o| CEvent::Outcome(i, matches!(o, TimerOutcome::Completed(_)))), h)
+                        }
+                        TKind::At => {
+                            let (b, h) = Time::<Effect, CEvent>::notify_at(SystemTime::UNIX_EPOCH + Duration::from_secs(1000 + i as u64));
+                            (b.then_send(move |o| CEvent::Outcome(i, matches!(o, TimerOutcome::Completed(_)))), h)
+                        }
+                    };
+                    model.handles.push(Some(h));
+                    return cmd;
+                }
+                CEvent::Clear(i) => {
+                    if let Some(h) = model.handles.get_mut(i).and_then(Option::take) {
+                        h.clear();
+                    }
+                }
+                CEvent::DropHandle(i) => {
+                    if let Some(slot) = model.handles.get_mut(i) {
+                        *slot = None;
+                    }
+                }
+                CEvent::Noop => {}
+                CEvent::Outcome(i, c) => model.outcomes.push((i, c)),
+            }
+            Command::done()
+        }
+
+        fn view(&self, model: &CModel) -> Self::ViewModel {
+            model.outcomes.clone()
+        }
+    }
+
+    #[derive(Clone, Copy, Debug, PartialEq, Eq, PartialOrd, Ord, Serialize, Deserialize)]
+    pub enum CAct {
+        Start(TKind),
+        Fire(usize),
+        Clear(usize),
+        DropHandle(usize),
+        DropRequest(usize),
+        AnswerClear(usize),
+    }
+
+    pub struct CFound {
+        pub fail: TFail,
+        pub history: Vec<CAct>,
+    }
+
+    fn replay(hist: &[CAct], trace: bool) -> Result<Vec<RefTimer>, TFail> {
+        let core: Core<CApp> = Core::new();
+        let mut refs: Vec<RefTimer> = vec![];
+        let mut kinds: Vec<TKind> = vec![];
+        let mut ids: Vec<Option<TimerId>> = vec![];
+        let mut reqs: Vec<Option<Request<TimeRequest>>> = vec![];
+        let mut clear_reqs: Vec<Option<Request<TimeRequest>>> = vec![];
+        let mut seen = 0usize;
+        for (n, act) in hist.iter().enumerate() {
+            // reference: apply the input, then the call settles
+            let mut pred_res = None;
+            match act {
+                CAct::Start(k) => {
+                    kinds.push(*k);
+                    ids.push(None);
+                    reqs.push(None);
+                    clear_reqs.push(None);
+                    refs.push(RefTimer::new());
+                }
+                CAct::Fire(i) => pred_res = refs[*i].apply(TAct::Fire(*i)),
+                CAct::Clear(i) => {
+                    refs[*i].apply(TAct::Clear(*i));
+                }
+                CAct::DropHandle(i) => {
+                    refs[*i].apply(TAct::DropHandle(*i));
+                }
+                CAct::DropRequest(i) => {
+                    refs[*i].apply(TAct::DropRequest(*i));
+                }
+                CAct::AnswerClear(i) => pred_res = refs[*i].apply(TAct::AnswerClear(*i)),
+            }
+            let r = mc_kit::catch(|| -> (Option<bool>, Vec<Effect>) {
+                match act {
+                    CAct::Start(k) => (None, core.process_event(CEvent::Start(*k))),
+                    CAct::Clear(i) => (None, core.process_event(CEvent::Clear(*i))),
+                    CAct::DropHandle(i) => (None, core.process_event(CEvent::DropHandle(*i))),
+                    CAct::DropRequest(i) => {
+                        reqs[*i] = None;
+                        (None, core.process_event(CEvent::Noop))
+                    }
+                    CAct::Fire(i) => {
+                        let id = ids[*i].unwrap();
+                        let resp = match kinds[*i] {
+                            TKind::After => TimeResponse::DurationElapsed { id },
+                            TKind::At => TimeResponse::InstantArrived { id },
+                        };
+                        match reqs[*i].as_mut() {
+                            Some(r) => match r.resolve(resp) {
+                                Ok(()) => (Some(true), core.process_event(CEvent::Noop)),
+                                Err(_) => (Some(false), vec![]),
+                            },
+                            None => (None, vec![]),
+                        }
+                    }
+                    CAct::AnswerClear(i) => {
+                        let id = ids[*i].unwrap();
+                        match clear_reqs[*i].as_mut() {
+                            Some(r) => match r.resolve(TimeResponse::Cleared { id }) {
+                                Ok(()) => (Some(true), core.process_event(CEvent::Noop)),
+                                Err(_) => (Some(false), vec![]),
+                            },
+                            None => (None, vec![]),
+                        }
+                    }
+                }
+            });
+            let (real_res, effects) = match r {
+                Ok(v) => v,
+                Err(p) => return Err(TFail { key: format!("panic/{}", p.key()), what: format!("step {n} {:?} panicked: {} at {}:{}", act, p.message, p.file, p.line) }),
+            };
+            if real_res != pred_res {
+                return Err(TFail { key: "resolve-result/differs".into(), what: format!("step {n} {:?}: resolve accepted = {:?}, protocol says {:?}", act, real_res, pred_res) });
+            }
+            let mut obs = vec![];
+            for e in effects {
+                match e {
+                    Effect::Time(r) => match r.operation.clone() {
+                        TimeRequest::NotifyAfter { id, duration } => {
+                            let i = (std::time::Duration::from(duration).as_millis() as usize).wrapping_sub(300);
+                            if i >= ids.len() || ids[i].is_some() {
+                                return Err(TFail { key: "request/duplicate-or-altered".into(), what: format!("{:?}", r.operation) });
+                            }
+                            ids[i] = Some(id);
+                            if !ALL_IDS.lock().unwrap().insert(id.0) {
+                                return Err(TFail { key: "timer-id/not-unique".into(), what: format!("timer id {} handed out twice", id.0) });
+                            }
+                            reqs[i] = Some(r);
+                            obs.push(RefOut::Request(i));
+                        }
+                        TimeRequest::NotifyAt { id, instant } => {
+                            let i = (SystemTime::from(instant).duration_since(SystemTime::UNIX_EPOCH).map_or(0, |d| d.as_secs()) as usize).wrapping_sub(1000);
+                            if i >= ids.len() || ids[i].is_some() {
+                                return Err(TFail { key: "request/duplicate-or-altered".into(), what: format!("{:?}", r.operation) });
+                            }
+                            ids[i] = Some(id);
+                            if !ALL_IDS.lock().unwrap().insert(id.0) {
+                                return Err(TFail { key: "timer-id/not-unique".into(), what: format!("timer id {} handed out twice", id.0) });
+                            }
+                            reqs[i] = Some(r);
+                            obs.push(RefOut::Request(i));
+                        }
+                        TimeRequest::Clear { id } => {
+                            let Some(i) = ids.iter().position(|x| *x == Some(id)) else {
+                                return Err(TFail { key: "clear/unknown-id".into(), what: format!("Clear for unknown id {id:?}") });
+                            };
+                            if clear_reqs[i].is_some() {
+                                return Err(TFail { key: "clear/sent-twice".into(), what: format!("second Clear request for timer {i}") });
+                            }
+                            clear_reqs[i] = Some(r);
+                            obs.push(RefOut::ClearRequest(i));
+                        }
+                        TimeRequest::Now => {}
+                    },
+                    Effect::Render(_) => {}
+                }
+            }
+            let view = core.view();
+            for (i, c) in &view[seen..] {
+                obs.push(if *c { RefOut::Completed(*i) } else { RefOut::Cleared(*i) });
+            }
+            seen = view.len();
+            obs.sort();
+            let mut pred = vec![];
+            if real_res != Some(false) {
+                for (i, t) in refs.iter_mut().enumerate() {
+                    t.run(i, &mut pred);
+                }
+            }
+            pred.sort();
+            if trace {
+                println!("  step {n}: {:?} -> observed {:?}; protocol {:?}", act, obs, pred);
+            }
+            if obs != pred {
+                let key = if obs.iter().any(|o| matches!(o, RefOut::ClearRequest(_))) != pred.iter().any(|o| matches!(o, RefOut::ClearRequest(_))) {
+                    "clear-request/differs"
+                } else {
+                    "outcome/differs"
+                };
+                return Err(TFail { key: key.into(), what: format!("after step {n} {:?}: observed {:?}, protocol {:?}", act, obs, pred) });
+            }
+        }
+        Ok(refs)
+    }
+
+    pub fn explore(max_depth: usize, max_timers: usize, stats: &mut TStats, found: &mut Vec<CFound>, sample: &mut Option<Vec<CAct>>) {
+        fn dfs(hist: &mut Vec<CAct>, refs: &[RefTimer], late: usize, max_depth: usize, max_timers: usize, stats: &mut TStats, found: &mut Vec<CFound>, sample: &mut Option<Vec<CAct>>) {
+            let mut steps: Vec<(CAct, bool)> = vec![];
+            if hist.len() < max_depth {
+                if refs.len() < max_timers {
+                    steps.push((CAct::Start(TKind::After), false));
+                    steps.push((CAct::Start(TKind::At), false));
+                }
+                for (i, t) in refs.iter().enumerate() {
+                    match t.req {
+                        ReqSt::Pending => {
+                            steps.push((CAct::Fire(i), t.phase != Phase::Requested));
+                            steps.push((CAct::DropRequest(i), t.phase != Phase::Requested));
+                        }
+                        ReqSt::Answered | ReqSt::Spent => steps.push((CAct::Fire(i), true)),
+                        _ => {}
+                    }
+                    if t.handle == HandleSt::Held {
+                        steps.push((CAct::Clear(i), t.phase == Phase::Done));
+                        steps.push((CAct::DropHandle(i), t.phase == Phase::Done));
+                    }
+                    match t.clear_req {
+                        ReqSt::Pending => steps.push((CAct::AnswerClear(i), false)),
+                        ReqSt::Answered | ReqSt::Spent => steps.push((CAct::AnswerClear(i), true)),
+                        _ => {}
+                    }
+                }
+            }
+            steps.retain(|(_, l)| !*l || late < 2);
+            if steps.is_empty() {
+                stats.histories += 1;
+                stats.outcomes.insert(refs.iter().map(|t| t.outcome).collect());
+                if sample.as_ref().map_or(true, |s| s.len() < hist.len()) {
+                    *sample = Some(hist.clone());
+                }
+                return;
+            }
+            for (st, l) in steps {
+                hist.push(st);
+                stats.transitions += 1;
+                match replay(hist, false) {
+                    Ok(refs2) => {
+                        stats.states += 1;
+                        dfs(hist, &refs2, late + usize::from(l), max_depth, max_timers, stats, found, sample);
+                    }
+                    Err(f) => {
+                        stats.histories += 1;
+                        if found.len() < 20 {
+                            found.push(CFound { fail: f, history: hist.clone() });
+                        }
+                    }
+                }
+                hist.pop();
+            }
+        }
+        stats.states += 1;
+        dfs(&mut vec![], &[], 0, max_depth, max_timers, stats, found, sample);
+    }
+
+    pub fn case_json(hist: &[CAct]) -> Value {
+        json!({"engine": "timers", "api": "command-via-core", "history": hist})
+    }
+
+    pub fn replay_case(case: &Value) -> i32 {
+        let hist: Vec<CAct> = serde_json::from_value(case["history"].clone()).unwrap();
         match replay(&hist, true) {
             Ok(_) => {
                 println!("  no divergence");
